@@ -75,7 +75,12 @@ def cases(draw):
     chunks = draw(st.lists(st.tuples(st.sampled_from(["stdout", "stderr"]), st.sampled_from([b"line\n", b"", b"warn \xc3\xa9\n", b"x" * 50])), min_size=0, max_size=4))
     fail_after = draw(st.integers(0, 4))
     payload = draw(st.binary(min_size=1, max_size=20))
-    return {"backend": backend, "names": names, "dirs": dirs, "missing": missing, "form": form, "image": image, "tag": tag, "default_image": use_default_image, "md": md,
+    # optionally a second query on the SAME dataset object, with its own metadata / outcome
+    second = None
+    if draw(st.integers(0, 2)) == 0:
+        second = {"md": draw(st.lists(st.sampled_from(["md/second:9", "other/img:2"]), min_size=0, max_size=1)),
+                  "outcome": draw(st.sampled_from(["success", "success", "fail-before"])), "payload": draw(st.binary(min_size=1, max_size=12)).decode("latin-1")}
+    return {"second": second, "backend": backend, "names": names, "dirs": dirs, "missing": missing, "form": form, "image": image, "tag": tag, "default_image": use_default_image, "md": md,
             "outdir": outdir, "outcome": outcome, "chunks": [(k, d.decode("latin-1")) for k, d in chunks], "fail_after": fail_after, "payload": payload.decode("latin-1")}
 
 
@@ -135,6 +140,19 @@ def run_case(c: dict) -> dict:
             finally:
                 after = set(os.listdir(tmproot))
                 obs["leftover_tmp"] = sorted(x for x in after - before if os.path.isdir(os.path.join(tmproot, x)))
+                obs["calls_first"] = len(pow_.vf_calls)
+                if c.get("second"):
+                    # the same dataset object is used for another query
+                    s2 = c["second"]
+                    pow_.vf_plan.update({"outcome": s2["outcome"], "chunks": [("stdout", b"x")], "fail_after": 0, "payload": s2["payload"].encode("latin-1")})
+                    q2 = ds
+                    for m in s2["md"]:
+                        q2 = q2.MetaData({"metadata_type": "docker", "image": m})
+                    try:
+                        r2 = q2.Select(QUERY[c["backend"]]).value()
+                        obs["second_result_bytes"] = [open(r, "rb").read().decode("latin-1") for r in r2]
+                    except BaseException as e2:
+                        obs["second_exception"] = type(e2).__name__
         except BaseException as e:
             obs["exception"] = type(e).__name__
             obs["exception_msg"] = str(e)[:200]
@@ -169,6 +187,22 @@ def judge(c: dict, obs: dict):
         return "input-error"
     if "constructed" not in obs:
         raise Violation("valid-input-rejected", f"constructing the dataset raised {obs.get('exception')}: {obs.get('exception_msg')}", rep)
+    second_calls = calls[obs.get("calls_first", len(calls)):]
+    calls = calls[: obs.get("calls_first", len(calls))]
+    if c.get("second") and obs.get("calls_first") is not None:
+        s2 = c["second"]
+        if len(second_calls) != 1:
+            raise Violation("second-query", f"the second query on the same dataset started {len(second_calls)} containers", rep)
+        default2 = {"atlas": "atlas/analysisbase:21.2.197", "cms_aod": "cmsopendata/cmssw_5_3_32:conddb_20210705", "cms_miniaod": "cmsopendata/cmssw_7_6_7-slc6_amd64_gcc493:latest"}[c["backend"]]
+        want2 = s2["md"][0] if s2["md"] else (default2 if c["default_image"] else f"{c['image']}:{c['tag']}")
+        if second_calls[0]["image"] != want2:
+            raise Violation("second-query-image", f"a second query on the same dataset ran image {second_calls[0]['image']!r}; expected {want2!r} (first query's metadata: {c['md']})", rep)
+        if second_calls[0].get("filelist") != "".join(f"/data/{n}\n" for n in c["names"]):
+            raise Violation("second-query-filelist", f"second query's filelist {second_calls[0].get('filelist')!r}", rep)
+        if s2["outcome"] == "success" and obs.get("second_result_bytes") != [s2["payload"]]:
+            raise Violation("second-query-result", f"second query returned {obs.get('second_result_bytes')!r} / {obs.get('second_exception')}; the container wrote {s2['payload']!r}", rep)
+        if s2["outcome"] != "success" and "second_exception" not in obs:
+            raise Violation("second-query-failure-swallowed", "the second query's container failed but a result was returned", rep)
     if len(calls) != 1:
         if "exception" in obs:
             raise Violation("no-container", f"{obs['exception']}: {obs['exception_msg']} before any container was started", rep)
@@ -238,9 +272,9 @@ def worker(payload):
         obs = run_case(c)
         res = judge(c, obs)
         nt = len(c["names"]) >= 2 or bool(c["md"]) or c["outcome"] != "success" or res == "input-error"
-        labels = [f"backend={c['backend']}", "outcome=" + c["outcome"], "result=" + res, f"files={len(c['names'])}", f"metadata={len(c['md'])}", "form=" + c["form"],
+        labels = (["second-query-on-same-dataset"] if c.get("second") else []) + [f"backend={c['backend']}", "outcome=" + c["outcome"], "result=" + res, f"files={len(c['names'])}", f"metadata={len(c['md'])}", "form=" + c["form"],
                   "outdir=" + ("given" if c["outdir"] else "default")]
-        stats.case(jdump(c), nt, labels, {k: c[k] for k in ("backend", "names", "dirs", "missing", "form", "md", "outcome", "fail_after")})
+        stats.case(jdump(c), nt or bool(c.get("second")), labels, {k: c[k] for k in ("backend", "names", "dirs", "missing", "form", "md", "outcome", "fail_after", "second")})
 
     hyp_search(body, cases(), max_examples=n, seed=seed, stats=stats, deadline=deadline, key_fn=jdump, shrink_budget=200)
     return stats
